@@ -71,6 +71,8 @@ int current_fiber();
 
 // number of ThreadSanitizer reports since the process started
 unsigned tsan_report_count();
+// kind of the first report of the last run ("data-race", "lock-order-inversion", ...)
+char const *tsan_first_report_kind();
 
 // allocation faults in the concurrent engine: the k-th allocation performed by `fiber` from now on
 // throws std::bad_alloc (the replaced operator new lives in the uninstrumented scheduler TU)
